@@ -60,6 +60,14 @@ type Case struct {
 	// that returned the error is then handled according to Follow (0 = run it again and go on, 1/2 as above).
 	FailAt   int `json:"fail_at,omitempty"`
 	FailMode int `json:"fail_mode,omitempty"`
+	// block-origin dimension (derived_test.go), "upload" chains only: where the uploaded block directory comes from
+	// (0 fresh | 1 downloaded, unchanged | 2 downloaded and rewritten | 3 downloaded and downsampled), the hash function
+	// the SOURCE block was uploaded with (recorded in the downloaded meta.json), the hash function of this upload
+	// (0 none | 1 SHA256), and whether block.UploadPromBlock is used instead of block.Upload.
+	Origin  int  `json:"origin,omitempty"`
+	SrcHash int  `json:"src_hash,omitempty"`
+	Hash    int  `json:"hash,omitempty"`
+	Prom    bool `json:"prom,omitempty"`
 }
 
 type scenario struct {
@@ -90,6 +98,8 @@ type templates struct {
 	id    [4]ulid.ULID // its id
 	dirB  string       // a second, later single-segment block (for ship2)
 	idB   ulid.ULID
+	der   [nOrigins][4][2]*derivedBlock // der[origin][segs of the source][hash func of the source upload], origin >= 1
+	side  []string                      // side observations made while deriving blocks
 	tmpMu sync.Mutex
 	tmpN  int
 }
@@ -100,6 +110,48 @@ func buildTemplates(t *testing.T) *templates {
 	tp := &templates{base: t.TempDir()}
 	var wg sync.WaitGroup
 	var errs [5]error
+	var derrs [nOrigins][4][2]error
+	var sideMu sync.Mutex
+	// non-fresh blocks (started as soon as their source template exists): every origin x hash function of the source upload
+	derive := func(segs int) {
+		src := filepath.Join(tp.dir[segs], tp.id[segs].String())
+		for origin := originDownloaded; origin < nOrigins; origin++ {
+			for sh := 0; sh < 2; sh++ {
+				wg.Add(1)
+				go func() {
+					defer wg.Done()
+					work := filepath.Join(tp.base, fmt.Sprintf("der-o%d-s%d-h%d", origin, segs, sh))
+					tp.der[origin][segs][sh], derrs[origin][segs][sh] = buildDerived(work, src, tp.id[segs], origin, hashFuncs[sh], false)
+				}()
+			}
+		}
+		if segs != 3 {
+			return
+		}
+		// side observation (not judged): the same derivations from a source that carries thanos.segment_files
+		for origin := originRewritten; origin < nOrigins; origin++ {
+			wg.Add(1)
+			go func() {
+				defer wg.Done()
+				work := filepath.Join(tp.base, fmt.Sprintf("side-o%d", origin))
+				d, err := buildDerived(work, src, tp.id[segs], origin, metadata.NoneFunc, true)
+				if err != nil {
+					derrs[origin][0][0] = err
+					return
+				}
+				stale, err := staleSegmentFiles(d.dir)
+				if err != nil {
+					derrs[origin][0][0] = err
+					return
+				}
+				if len(stale) > 0 {
+					sideMu.Lock()
+					tp.side = append(tp.side, fmt.Sprintf("a %s block derived from a 3-segment source that carries thanos.segment_files keeps the source's list in its local meta.json: %v are not in the block directory", originNames[origin], stale))
+					sideMu.Unlock()
+				}
+			}()
+		}
+	}
 	for segs := 1; segs <= 3; segs++ {
 		wg.Add(1)
 		go func() {
@@ -107,6 +159,9 @@ func buildTemplates(t *testing.T) *templates {
 			d := filepath.Join(tp.base, fmt.Sprintf("tpl%d", segs))
 			tp.id[segs], errs[segs] = buildBlock(d, filepath.Join(tp.base, fmt.Sprintf("scratch%d", segs)), segs, 0, 1000, extLset)
 			tp.dir[segs] = d
+			if errs[segs] == nil {
+				derive(segs)
+			}
 		}()
 	}
 	wg.Add(1)
@@ -121,6 +176,16 @@ func buildTemplates(t *testing.T) *templates {
 			t.Fatalf("HARNESS-ERROR building template block %d: %v", i, err)
 		}
 	}
+	for origin := range derrs {
+		for segs := range derrs[origin] {
+			for sh, err := range derrs[origin][segs] {
+				if err != nil {
+					t.Fatalf("HARNESS-ERROR deriving the %s block (source: %d segment files, hash func %d): %v", originNames[origin], segs, sh, err)
+				}
+			}
+		}
+	}
+	sort.Strings(tp.side)
 	return tp
 }
 
@@ -140,6 +205,7 @@ type world struct {
 	tp     *templates
 	scn    scenario
 	id     ulid.ULID
+	bdir   string // directory of the block that the "upload" step publishes
 
 	tgt    *vcrash.Bucket
 	origin *objstore.InMemBucket
@@ -152,6 +218,7 @@ type world struct {
 	step       string
 	delStarted map[string]bool
 	nI1, nI2   int64
+	nHash      int64 // listed files whose recorded hash was compared
 	harness    []string
 	mutsFirst  int      // mutating ops attempted on the first bucket
 	mutsSecond int      // ... on the bucket after the first restart / after the step that failed transiently
@@ -236,6 +303,13 @@ func (w *world) check(objs map[string][]byte) {
 				} else if int64(len(got)) != f.SizeBytes {
 					w.violation("meta-present-listed-file-size-differs-during-"+w.step,
 						fmt.Sprintf("block %s: %s has %d bytes, meta.json records %d", id, f.RelPath, len(got), f.SizeBytes))
+				} else if f.Hash != nil && f.Hash.Func == metadata.SHA256Func {
+					// where meta.json also records a content hash of the file, the object with the recorded size is that file
+					w.nHash++
+					if h := sha256Hex(got); h != f.Hash.Value {
+						w.violation("meta-present-listed-file-hash-differs-during-"+w.step,
+							fmt.Sprintf("block %s: %s (%d bytes) has SHA256 %s, meta.json records %s", id, f.RelPath, len(got), h, f.Hash.Value))
+					}
 				}
 			}
 			for _, s := range m.Thanos.SegmentFiles {
@@ -306,8 +380,10 @@ func (w *world) exec(step string) (err error) {
 	}()
 	switch step {
 	case "upload":
-		return block.Upload(ctx, logger, w.bkt, filepath.Join(w.tp.dir[w.c.Segs], w.id.String()), metadata.NoneFunc,
-			objstore.WithUploadConcurrency(w.c.Conc))
+		if w.c.Prom {
+			return block.UploadPromBlock(ctx, logger, w.bkt, w.bdir, hashFuncs[w.c.Hash], objstore.WithUploadConcurrency(w.c.Conc))
+		}
+		return block.Upload(ctx, logger, w.bkt, w.bdir, hashFuncs[w.c.Hash], objstore.WithUploadConcurrency(w.c.Conc))
 	case "ship", "ship2", "ship2ooo":
 		if w.local == "" {
 			w.local = w.tp.tmp()
@@ -391,6 +467,11 @@ func (w *world) noteSuccessDespiteFailure(step string) {
 func run(r *vlib.R, tp *templates, c Case, report bool) *world {
 	w := &world{r: r, c: c, report: report, tp: tp, scn: scenarios[c.Scn], id: tp.id[c.Segs], delStarted: map[string]bool{},
 		plan: &faultPlan{failAt: c.FailAt, mode: c.FailMode}}
+	w.bdir = filepath.Join(tp.dir[c.Segs], w.id.String())
+	if c.Origin != originFresh {
+		d := tp.der[c.Origin][c.Segs][c.SrcHash]
+		w.id, w.bdir = d.id, d.dir
+	}
 	defer func() {
 		if w.local != "" {
 			os.RemoveAll(w.local)
@@ -530,7 +611,7 @@ func gen(r *vlib.R, tp *templates) iter.Seq[Case] {
 			kinds []string
 			step1 int
 		}
-		var combos []combo
+		var combos, dcombos []combo
 		for scn := range scenarios {
 			for segs := 1; segs <= 3; segs++ {
 				concs := []int{1}
@@ -550,50 +631,93 @@ func gen(r *vlib.R, tp *templates) iter.Seq[Case] {
 				}
 			}
 		}
-		follows := vlib.Pick(r, 1, 2)
-		// transient failure of the k-th bucket operation (any kind, either bucket), process continues
-		for _, cb := range combos {
-			first := scenarios[cb.base.Scn].steps[0]
-			if !r.Thorough() {
-				// quick-tier economy (the shipper cases are fsync bound): the shipper hands the block to the same block.upload
-				// as the "upload" chains, which keep the concurrency dimension; the two-block chains (what is new there is
-				// the second block, and the out-of-order option) with one segment file, ship-one-block keeps 1..3.
-				if (first == "ship" && cb.base.Conc > 1) || (strings.HasPrefix(first, "ship2") && cb.base.Segs > 1) {
-					continue
-				}
-			}
-			for k, kind := range cb.kinds {
-				modes := 1
-				if mode1Applies(kind) {
-					modes = 2
-				}
-				for mode := 0; mode < modes; mode++ {
-					for follow := 0; follow <= follows; follow++ {
-						if follow > 0 && !r.Thorough() && k >= cb.step1 {
-							// quick: "clean the block up instead of retrying" only after a failed publishing step (a failed
-							// mark/delete step followed by block.Delete is nearly the retry)
-							continue
-						}
-						c := cb.base
-						c.FailAt, c.FailMode, c.Follow = k+1, mode, follow
-						if !yield(c) { // thorough: its evaluation also crashes the follow-up at every op k2 (see TestCheck)
-							return
+		// block-origin dimension: the "upload, mark, delete" chain with a block directory that is not a fresh one, with
+		// both hash functions on either side and both upload entry points. Every such chain is run undisturbed (invariants
+		// after every mutating op = every crash point of the upload); the crash/restart and transient-failure families
+		// run on all of them in the thorough tier, on a covering subset in the quick tier.
+		for origin := originFresh; origin < nOrigins; origin++ {
+			for segs := 1; segs <= 3; segs++ {
+				for srcHash := 0; srcHash < 2; srcHash++ {
+					for hash := 0; hash < 2; hash++ {
+						for _, prom := range []bool{false, true} {
+							if origin == originFresh && (srcHash != 0 || (hash == 0 && !prom)) {
+								continue // a fresh block has no source upload; (none, block.Upload) is the chain above
+							}
+							concs := []int{1}
+							if r.Thorough() {
+								concs = []int{1, 3}
+							}
+							for _, conc := range concs {
+								base := Case{Scn: 0, Segs: segs, Conc: conc, Origin: origin, SrcHash: srcHash, Hash: hash, Prom: prom}
+								if !yield(base) {
+									return
+								}
+								// quick: families for four derived blocks whose downloaded meta.json records sizes AND hashes, chosen so that
+								// every pair of (rewritten | downsampled) x (1 | 3 source segment files) x (upload hash none | SHA256) occurs
+								// thorough: families for every non-fresh origin x 1..3 segment files x upload hash function, with the
+								// downloaded meta.json that records sizes and hashes, block.Upload, concurrency 1
+								fam := origin >= originDownloaded && srcHash == 1 && !prom && conc == 1
+								if !r.Thorough() {
+									fam = fam && origin >= originRewritten && segs != 2 && (hash == 1) == ((origin == originRewritten) == (segs == 1))
+								}
+								if !fam {
+									continue
+								}
+								w := run(r, tp, base, false)
+								dcombos = append(dcombos, combo{base, w.mutsFirst, w.opKinds, w.opsStep1})
+							}
 						}
 					}
 				}
 			}
 		}
-		// crash at the k-th mutating operation, restart
-		for _, cb := range combos {
-			if cb.base.Scn >= firstFaultOnlyScn {
-				continue
+		follows := vlib.Pick(r, 1, 2)
+		// the families of the non-fresh blocks come last: a deadline on an overloaded machine cuts them first
+		for _, combos := range [][]combo{combos, dcombos} {
+			// transient failure of the k-th bucket operation (any kind, either bucket), process continues
+			for _, cb := range combos {
+				first := scenarios[cb.base.Scn].steps[0]
+				if !r.Thorough() {
+					// quick-tier economy (the shipper cases are fsync bound): the shipper hands the block to the same block.upload
+					// as the "upload" chains, which keep the concurrency dimension; the two-block chains (what is new there is
+					// the second block, and the out-of-order option) with one segment file, ship-one-block keeps 1..3.
+					if (first == "ship" && cb.base.Conc > 1) || (strings.HasPrefix(first, "ship2") && cb.base.Segs > 1) {
+						continue
+					}
+				}
+				for k, kind := range cb.kinds {
+					modes := 1
+					if mode1Applies(kind) {
+						modes = 2
+					}
+					for mode := 0; mode < modes; mode++ {
+						for follow := 0; follow <= follows; follow++ {
+							if follow > 0 && !r.Thorough() && k >= cb.step1 {
+								// quick: "clean the block up instead of retrying" only after a failed publishing step (a failed
+								// mark/delete step followed by block.Delete is nearly the retry)
+								continue
+							}
+							c := cb.base
+							c.FailAt, c.FailMode, c.Follow = k+1, mode, follow
+							if !yield(c) { // thorough: its evaluation also crashes the follow-up at every op k2 (see TestCheck)
+								return
+							}
+						}
+					}
+				}
 			}
-			for k := 1; k <= cb.muts; k++ {
-				for follow := 0; follow <= follows; follow++ {
-					c := cb.base
-					c.DieAt, c.Follow = k, follow
-					if !yield(c) { // its evaluation also runs every second-level crash k2 (see TestCheck)
-						return
+			// crash at the k-th mutating operation, restart
+			for _, cb := range combos {
+				if cb.base.Scn >= firstFaultOnlyScn {
+					continue
+				}
+				for k := 1; k <= cb.muts; k++ {
+					for follow := 0; follow <= follows; follow++ {
+						c := cb.base
+						c.DieAt, c.Follow = k, follow
+						if !yield(c) { // its evaluation also runs every second-level crash k2 (see TestCheck)
+							return
+						}
 					}
 				}
 			}
@@ -604,7 +728,7 @@ func gen(r *vlib.R, tp *templates) iter.Seq[Case] {
 func TestCheck(t *testing.T) {
 	r := vlib.New(t, "C28")
 	defer r.Finish()
-	r.Rule("7 procedure chains (block.Upload | Shipper.Sync with 1 or 2 local blocks | replication into an empty target or over a stale meta.json; " +
+	const ruleChains = ("7 procedure chains (block.Upload | Shipper.Sync with 1 or 2 local blocks | replication into an empty target or over a stale meta.json; " +
 		"then [no-compact mark,] deletion mark, block.Delete; also block.Delete of an unmarked block) x blocks with 1..3 chunk segment files x upload concurrency {1,3}; " +
 		"both invariants evaluated after every applied mutating bucket op; plus: crash at every mutating op k, restart on the death snapshot " +
 		"(resume | clean up with block.Delete), second crash at every op k2 of the follow-up, resume to the end; " +
@@ -614,12 +738,51 @@ func TestCheck(t *testing.T) {
 		"non-trivial = distinct strictly intermediate bucket states of a block (objects present, but meta.json absent or deletion running)")
 	r.Assume("object PUT and DELETE are atomic (vcrash model); listing order is that of the in-memory bucket (files before directories); " +
 		"with upload concurrency 3 the interleaving of chunk uploads is whatever the Go scheduler produced (the oracle is order independent)")
+	r.Rule(ruleChains + " PLUS block-origin dimension of the upload chain: the uploaded block directory is fresh (no thanos.files in its meta.json) | fetched with block.Download and uploaded again | " +
+		"fetched and rewritten as `tools bucket rewrite` does (compactv2 deletion, one segment file, downloaded meta.json re-used under a new ULID) | fetched and downsampled by downsample.Downsample; " +
+		"x source block with 1..3 segment files x hash function of the source upload {none,SHA256} x hash function of this upload {none,SHA256} x block.Upload | block.UploadPromBlock; " +
+		"non-trivial there = the local meta.json of the derived block lists files with sizes/hashes that disagree with the directory (stale sizes, dropped segment files); " +
+		"a listed file is also compared with its SHA256 where meta.json records one")
 	tp := buildTemplates(t)
+	var staleDirs, staleSizes, staleMissing, staleHashes int64
+	for origin := originDownloaded; origin < nOrigins; origin++ {
+		for segs := 1; segs <= 3; segs++ {
+			for sh := 0; sh < 2; sh++ {
+				d := tp.der[origin][segs][sh]
+				stale := d.staleSize + d.staleMissing + d.staleHash
+				switch {
+				case d.listed < 2:
+					t.Errorf("HARNESS-ERROR the %s block (%d source segments, source hash %d) has %d listed files in its local meta.json", originNames[origin], segs, sh, d.listed)
+				case origin == originDownloaded && stale != 0:
+					t.Errorf("HARNESS-ERROR the block fetched by block.Download disagrees with its own meta.json: %+v", *d)
+				case origin >= originRewritten && (d.staleSize == 0 || (segs > 1 && d.staleMissing == 0) || (sh == 1 && d.staleHash == 0)):
+					t.Errorf("HARNESS-ERROR the %s block (%d source segments, source hash %d) does not differ from what its copied meta.json says: %+v (dimension vacuous)", originNames[origin], segs, sh, *d)
+				}
+				if stale > 0 {
+					staleDirs++
+					r.Nontrivial(fmt.Sprintf("origin %d/%d/%d: local meta.json stale in %d sizes, %d missing files, %d hashes", origin, segs, sh, d.staleSize, d.staleMissing, d.staleHash))
+				}
+				staleSizes += int64(d.staleSize)
+				staleMissing += int64(d.staleMissing)
+				staleHashes += int64(d.staleHash)
+			}
+		}
+	}
+	r.Set("derived_block_dirs_whose_local_meta_lists_stale_file_stats", staleDirs)
+	r.Set("stale_sizes_in_local_meta_of_derived_blocks", staleSizes)
+	r.Set("files_listed_in_local_meta_of_derived_blocks_but_not_on_disk", staleMissing)
+	r.Set("stale_hashes_in_local_meta_of_derived_blocks", staleHashes)
+	for _, s := range tp.side {
+		r.Note("side observation (input of the upload, not judged): %s", s)
+	}
+	r.Set("side_derived_block_keeps_stale_segment_files_list", int64(len(tp.side)))
 	var harness sync.Map
-	var nI1, nI2, nFaultRuns, nFaultSwal int64
+	var nI1, nI2, nHash, nFaultRuns, nFaultSwal int64
 	var mu sync.Mutex
 	forEach(r, gen(r, tp), func(c Case) {
-		if c.Scn < 0 || c.Scn >= len(scenarios) || c.Segs < 1 || c.Segs > 3 || c.FailAt < 0 {
+		if c.Scn < 0 || c.Scn >= len(scenarios) || c.Segs < 1 || c.Segs > 3 || c.FailAt < 0 ||
+			c.Origin < 0 || c.Origin >= nOrigins || c.SrcHash < 0 || c.SrcHash > 1 || c.Hash < 0 || c.Hash > 1 ||
+			(c.Origin != originFresh && scenarios[c.Scn].steps[0] != "upload") {
 			t.Errorf("HARNESS-ERROR bad case %+v", c)
 			return
 		}
@@ -631,9 +794,13 @@ func TestCheck(t *testing.T) {
 		if c.FailMode < 0 || c.FailMode > 1 {
 			c.FailMode = 0
 		}
-		if (c.DieAt > 0 || (c.FailAt > 0 && r.Thorough())) && c.DieAt2 == 0 && !r.Replaying() {
-			// second level: kill the follow-up at each of its mutating operations (count known from the run above)
+		if (c.DieAt > 0 || (c.FailAt > 0 && r.Thorough())) && c.DieAt2 == 0 && !r.Replaying() && (c.Origin == originFresh || r.Thorough()) {
+			// second level: kill the follow-up at each of its mutating operations (count known from the run above);
+			// quick tier: for the fresh-block chains only
 			for k2 := 1; k2 <= ws[0].mutsSecond; k2++ {
+				if r.Expired("second-level crash enumeration stopped early") {
+					break
+				}
 				c2 := c
 				c2.DieAt2 = k2
 				ws = append(ws, run(r, tp, c2, true))
@@ -648,6 +815,7 @@ func TestCheck(t *testing.T) {
 			mu.Lock()
 			nI1 += w.nI1
 			nI2 += w.nI2
+			nHash += w.nHash
 			nFaultRuns += w.nFaultRuns
 			nFaultSwal += w.nFaultSwal
 			mu.Unlock()
@@ -655,6 +823,7 @@ func TestCheck(t *testing.T) {
 	})
 	r.Set("states_with_meta_checked", nI1)
 	r.Set("states_in_marked_deletion_checked", nI2)
+	r.Set("listed_files_compared_with_their_recorded_hash", nHash)
 	r.Set("runs_with_a_step_failed_by_the_injected_transient_failure", nFaultRuns)
 	r.Set("runs_where_the_step_ignored_the_injected_failure", nFaultSwal)
 	harness.Range(func(k, v any) bool {
